@@ -202,3 +202,34 @@ func BadF45() int {
 	r := distinct(&S{})
 	return r.v
 }
+
+// F80 (known): an interface value made from a nil pointer is not nil; the inference learns "q is non-nil" from
+// `i != nil` with i = MakeInterface(q), infers contract(nonnil -> nonnil), and typedNil(non-nil) returns nil
+type iface80 interface{ m80() int }
+
+func (s *S) m80() int { return s.v }
+
+func find80() *S {
+	if count() == 0 {
+		return nil
+	}
+	return &S{}
+}
+
+func typedNil(x *S) *S {
+	if x == nil {
+		return nil
+	}
+	q := find80()
+	var i iface80 = q
+	if i != nil {
+		return q
+	}
+	return &S{}
+}
+
+// KnownF80TypedNil dereferences typedNil(non-nil), which is nil whenever find80() is.
+func KnownF80TypedNil() int {
+	r := typedNil(&S{})
+	return r.v
+}
